@@ -267,7 +267,7 @@ func cdiListSpecs(verbose bool, format string, vendors ...string) {
 	}
 
 	fmt.Printf("CDI Specs found:\n")
-	for _, vendor := range cache.ListVendors() {
+	for _, vendor := range vendors {
 		fmt.Printf("Vendor %s:\n", vendor)
 		for _, spec := range cache.GetVendorSpecs(vendor) {
 			cdiPrintSpec(spec, verbose, format, 2)
